@@ -1,6 +1,7 @@
 package gen
 
 import (
+	"fmt"
 	"runtime"
 	"sync"
 
@@ -21,6 +22,7 @@ var Rules = []report.Rule{
 	{ID: "V11", Floor: 300, Props: []string{"C11", "C04", "C07"}, Text: "predicate result stored by a never-failing predicate job; task call dominated by p == true; false edge is exactly `return nil`; recover handler registered before the gate"},
 	{ID: "V12", Floor: 1000, Props: []string{"C11"}, Text: "task outputs are written only by the user call and, iff FallbackWith, by `outputs..., err = fallbacks..., nil` exactly on the err != nil edge after the call and on the recovered != nil edge of the handler"},
 	{ID: "V13", Floor: 3000, Props: []string{"C18"}, Text: "event typestate in site/condition form: Done emitted once by the first-registered defer; Error(err) once on the Wait-failed edge with the returned error, Success once before the final return nil, no other exits; skipped sweep deferred before the first Enqueue, testing each task's ran flag, every task struct swept once; per task: Success iff call returned without error, Error/ErrorRecovered(err) iff err != nil, Panic/PanicRecovered(recovered) iff recovered != nil in the handler, ran.Store(true) once past the gate before the call, TaskDone by the first-registered defer guarded by ran.Load(); emitters built by XInit iff instrumented, with this task's name"},
+	{ID: "V18", Floor: 40, Props: []string{"C20"}, Text: "every modifier-mode flow expansion (Params, Results, Concurrency, plain Tasks) discharges the same V1-V9/V16 obligations as its base-mode sibling: panic guard, error passthrough, ctx, dependency cover, wiring, results after Wait, Wait discipline"},
 	{ID: "V17", Floor: 300, Props: []string{"C12", "C18"}, Text: "the ran flags are sync/atomic values used only through their methods"},
 	{ID: "V8", Floor: 1000, Props: []string{"C05", "C06"}, Text: "exactly one unconditional Wait; no return between NewScheduler and Wait; no Enqueue after Wait"},
 	{ID: "T2", Floor: 1000, Props: []string{"C15"}, Text: "in every expanded variant a user expression is printed only as its hoisted variable; the raw expression text appears only in the prologue, as `<variable> := <raw>` once per recorded expression; no ast.Expr/types.Type value is printed bare"},
@@ -49,6 +51,30 @@ func Run(instances []*Instance, s *report.Sink) {
 }
 
 func runOne(in *Instance, s *report.Sink) {
+	if in.Kind == "modflow" {
+		// sibling agreement: a modifier-mode flow must meet the obligations of its base-mode sibling
+		ls := report.NewSink()
+		runOneInto(in, ls)
+		bad := ""
+		n := 0
+		for _, o := range ls.Obligations() {
+			n++
+			s.Add(o)
+			if o.Status != report.Discharged && bad == "" {
+				bad = "[" + o.Rule + "] " + o.Msg
+			}
+		}
+		if bad == "" {
+			s.OK("V18", in.Key+"|meets the base sibling's obligations", "", fmt.Sprintf("%d obligations of V1-V9/V16 discharged on the modifier-mode expansion", n))
+		} else {
+			s.Bad("V18", in.Key+"|meets the base sibling's obligations", in.Key, "modifier-mode output violates an obligation its base-mode sibling meets: "+bad)
+		}
+		return
+	}
+	runOneInto(in, s)
+}
+
+func runOneInto(in *Instance, s *report.Sink) {
 	x := Extract(in)
 	rc := &ruleCtx{x: x, s: s}
 	if in.Origin == "X" {
@@ -78,6 +104,8 @@ func runOne(in *Instance, s *report.Sink) {
 	rc.parallelOnce()
 	rc.predicateAndFallback()
 	rc.atomicRan()
-	rc.events()
+	if in.Kind != "modflow" {
+		rc.events()
+	}
 	s.AddFact("gen.job_closures", len(x.Jobs))
 }
